@@ -1,7 +1,14 @@
 package throttle
 
 import (
+	"math"
 	"time"
+)
+
+// the instants Time.UnixNano can represent (1677-09-21 .. 2262-04-11); outside them it wraps around
+var (
+	minUnixNanoTime = time.Unix(0, math.MinInt64)
+	maxUnixNanoTime = time.Unix(0, math.MaxInt64)
 )
 
 type buckets interface {
@@ -71,7 +78,14 @@ func (m bucketsMeta) actualizeIndex(maxID, index int) (int, bool) {
 
 // timeToBucketID converts time to bucketID
 func (m bucketsMeta) timeToBucketID(t time.Time) int {
-	return int(t.UnixNano() / m.interval.Nanoseconds())
+	ns := t.UnixNano()
+	switch {
+	case t.Before(minUnixNanoTime):
+		ns = math.MinInt64 // keeps such an instant before every bucket of the window
+	case t.After(maxUnixNanoTime):
+		ns = math.MaxInt64 // ... and after
+	}
+	return int(ns / m.interval.Nanoseconds())
 }
 
 type simpleBuckets struct {
